@@ -224,14 +224,16 @@ def ini_poly(p, flavour="analytic", form="pf", lim=None):
         return ">=0 as.zero"
     c = coeffs_int(p)
     if lim is not None:       # C17: the formula leaves its domain (sqrt of a negative number) for r > lim
-        return ">=0 pfbad %s %s" % (" ".join(str(x) for x in c), dec(lim))
+        return ">=0 %s %s %s" % (form if form.startswith("pfbad") else "pfbad", " ".join(str(x) for x in c), dec(lim))
     if flavour == "numeric":
         return ">=0 %s %s" % (form, " ".join(str(x) for x in c))
     return ">=0 as.polynomial %s" % " ".join(str(x) for x in c)
 
 
 def render_ini(ctx, target_spelling=None, bad=None):
-    """bad: None or (fn record, lim): that function fails (math domain error) at every abscissa > lim"""
+    """bad: None or (fn record, lim[, how]): that function fails at every abscissa > lim - how = "py": Python's math.sqrt of a
+    negative number (raises); "native": the expression library's own sqrt / log of a negative number (its only way of
+    reporting a domain error is a not-a-number result)"""
     m = ctx.m
 
     # every definition of the file may start with the SAME first range (never sampled: it ends at r = 0), so that anything the
@@ -240,7 +242,7 @@ def render_ini(ctx, target_spelling=None, bad=None):
 
     def IP(fn, flavour="analytic"):
         if bad is not None and fnkey(fn) == fnkey(bad[0]):
-            return ini_poly(probe(fn), flavour, lim=bad[1])
+            return ini_poly(probe(fn), flavour, lim=bad[1], form={"py": "pfbad", "native": "pfbadn", "nativelog": "pfbadl"}[bad[2] if len(bad) > 2 else "py"])
         return head + ini_poly(probe(fn), flavour)
     tgt = target_spelling or m["tgt"]
     L = ctx.L
@@ -250,7 +252,9 @@ def render_ini(ctx, target_spelling=None, bad=None):
     out.append("")
     if ctx.flavour == "numeric" or bad is not None:
         out += ["[Potential-Form]", "pf(r, a, b, c) = a + b*r + c*r^2",
-                "pfbad(r, a, b, c, lim) = a + b*r + c*r^2 + (pymath.sqrt(lim - r) - pymath.sqrt(lim - r))", ""]
+                "pfbad(r, a, b, c, lim) = a + b*r + c*r^2 + (pymath.sqrt(lim - r) - pymath.sqrt(lim - r))",
+                "pfbadn(r, a, b, c, lim) = a + b*r + c*r^2 + (sqrt(lim - r) - sqrt(lim - r))",
+                "pfbadl(r, a, b, c, lim) = a + b*r + c*r^2 + (log(lim - r) - log(lim - r))", ""]
     pairs = ["%s-%s : %s" % (L(a), L(b), IP(pair_fn(a, b), ctx.flavour)) for a, b in m["pots"]]
     if ctx.rev:
         pairs.reverse()
@@ -1243,10 +1247,12 @@ def _fault_one(idx):
                 for route in ("ini", "cli"):
                     if route not in ROUTES[tgt]:
                         continue
-                    res = execute(ctx, route, bad=(fn, lim), preexisting="OLD TABLE\n" if route == "cli" else None)
+                    how = ["py", "native", "py", "nativelog"][(idx + i + (route == "cli")) % 4]
+                    res = execute(ctx, route, bad=(fn, lim, how), preexisting="OLD TABLE\n" if route == "cli" else None)
                     out["runs"] += 1
                     out["ks"] += 1
-                    where = "%s at grid index %d" % (fnkey(fn), i)
+                    where = "%s at grid index %d, %s" % (fnkey(fn), i, {"py": "pymath.sqrt of a negative number", "native": "sqrt of a negative number",
+                                                                        "nativelog": "log of a negative number"}[how])
                     if res["outcome"] != "raised":
                         bad(route, "fault-swallowed", "formula outside its domain (%s) but the run ended normally" % where, dict(ini=res.get("ini")))
                     elif res["data"]:
